@@ -67,8 +67,21 @@ pub fn jobs(ctx: &Ctx) -> Vec<RJob> {
                             }
                         }
                         // colour pair
-                        match rng.below(6) {
+                        match rng.below(8) {
                             0 => {}
+                            6 | 7 => {
+                                // colours written as text in the notations CSS/SVG offer (three/four-digit shorthand,
+                                // eight digits, keyword names, rgb()): the pixel must be the colour the text denotes
+                                // (only notations whose value is pinned: `rebeccapurple` is not SVG 1.1)
+                                let pinned = |rng: &mut Rng, alpha: bool| loop {
+                                    let c = crate::render::random_text_notation(rng, alpha);
+                                    if c.rgba().is_some() {
+                                        break c;
+                                    }
+                                };
+                                spec.module_color = Some(pinned(&mut rng, false));
+                                spec.background = Some(if rng.chance(1, 3) { Colour::Rgb([rng.byte(), rng.byte(), rng.byte()]) } else { pinned(&mut rng, true) });
+                            }
                             5 => {
                                 // translucent BACKGROUND (alpha strictly between 0 and 255), opaque modules
                                 spec.module_color = Some(Colour::Rgb([rng.byte(), rng.byte(), rng.byte()]));
